@@ -654,6 +654,8 @@ class NpyArray:
 
     def __setitem__(self, sl, value):
         """Set data at slice `sl` to `value`."""
+        # Make earlier appends durable before overwriting in place
+        self.flush()
         self.memmap[sl] = value
 
     def __len__(self):
